@@ -11,18 +11,33 @@ together with the list entry; so `MK` holds after every API history (`mk_reachab
 namespace CfbVerif.Phys
 open CfbVerif.Raw CfbVerif.Dir
 
-structure MK (p : P) : Prop where
+structure MKc (p : P) : Prop where
   fatMark : ∀ i : Nat, p.fat[i]? = some FATSECT ↔ i ∈ p.difat
   difMark : ∀ i : Nat, p.fat[i]? = some DIFSECT ↔ i ∈ p.difatSectorIds
   kinds : ∀ i v : Nat, p.fat[i]? = some v → v = FREE ∨ v = END ∨ v ≤ MAXREG ∨ v = FATSECT ∨ v = DIFSECT
   fatNd : p.difat.Nodup
   difNd : p.difatSectorIds.Nodup
 
-/-- the fields `MK` reads are untouched -/
-def SameMarks (p q : P) : Prop := q.fat = p.fat ∧ q.difat = p.difat ∧ q.difatSectorIds = p.difatSectorIds
+/-- the DIFAT fits into the header's 109 slots plus the DIFAT sectors -/
+def CapD (p : P) : Prop :=
+  p.difat.length ≤ Gen.NUM_DIFAT_ENTRIES_IN_HEADER + p.difatSectorIds.length * ((p.S - 4) / 4)
 
-theorem mk_of_same {p q : P} (h : SameMarks p q) (m : MK p) : MK q := by
-  obtain ⟨h1, h2, h3⟩ := h
+structure MK (p : P) : Prop where
+  core : MKc p
+  capD : CapD p
+
+theorem MK.fatMark {p : P} (m : MK p) : ∀ i : Nat, p.fat[i]? = some FATSECT ↔ i ∈ p.difat := m.core.fatMark
+theorem MK.difMark {p : P} (m : MK p) : ∀ i : Nat, p.fat[i]? = some DIFSECT ↔ i ∈ p.difatSectorIds := m.core.difMark
+theorem MK.kinds {p : P} (m : MK p) :
+    ∀ i v : Nat, p.fat[i]? = some v → v = FREE ∨ v = END ∨ v ≤ MAXREG ∨ v = FATSECT ∨ v = DIFSECT := m.core.kinds
+theorem MK.fatNd {p : P} (m : MK p) : p.difat.Nodup := m.core.fatNd
+theorem MK.difNd {p : P} (m : MK p) : p.difatSectorIds.Nodup := m.core.difNd
+
+/-- the fields `MK` reads are untouched -/
+def SameMarks (p q : P) : Prop := q.fat = p.fat ∧ q.difat = p.difat ∧ q.difatSectorIds = p.difatSectorIds ∧ q.v4 = p.v4
+
+theorem mkc_of_same {p q : P} (h : SameMarks p q) (m : MKc p) : MKc q := by
+  obtain ⟨h1, h2, h3, _⟩ := h
   exact ⟨by rw [h1, h2]; exact m.fatMark, by rw [h1, h3]; exact m.difMark, by rw [h1]; exact m.kinds,
     by rw [h2]; exact m.fatNd, by rw [h3]; exact m.difNd⟩
 
@@ -36,8 +51,8 @@ theorem Plain.ne_marks {v : Nat} (h : Plain v) : v ≠ FATSECT ∧ v ≠ DIFSECT
   · have := MAXREG_lt_FATSECT; have := MAXREG_lt_DIFSECT; exact ⟨by omega, by omega⟩
 
 /-- overwriting a plain cell with a plain value -/
-theorem mk_set {p : P} {idx old val : Nat} (m : MK p) (hold : p.fat[idx]? = some old) (ho : Plain old) (hv : Plain val) :
-    MK { p with fat := p.fat.setIfInBounds idx val } := by
+theorem mkc_set {p : P} {idx old val : Nat} (m : MKc p) (hold : p.fat[idx]? = some old) (ho : Plain old) (hv : Plain val) :
+    MKc { p with fat := p.fat.setIfInBounds idx val } := by
   have hlt := lt_of_get hold
   have get : ∀ i : Nat, (p.fat.setIfInBounds idx val)[i]? = if idx = i then some val else p.fat[i]? := by
     intro i
@@ -76,7 +91,7 @@ theorem mk_set {p : P} {idx old val : Nat} (m : MK p) (hold : p.fat[idx]? = some
     · exact m.kinds i v h'
 
 /-- appending a plain cell -/
-theorem mk_push {p : P} {val : Nat} (m : MK p) (hv : Plain val) : MK { p with fat := p.fat.push val } := by
+theorem mkc_push {p : P} {val : Nat} (m : MKc p) (hv : Plain val) : MKc { p with fat := p.fat.push val } := by
   have hno1 : p.fat.size ∉ p.difat := fun h => by
     have := (m.fatMark _).mpr h; have := lt_of_get this; omega
   have hno2 : p.fat.size ∉ p.difatSectorIds := fun h => by
@@ -112,8 +127,8 @@ theorem mk_push {p : P} {val : Nat} (m : MK p) (hv : Plain val) : MK { p with fa
     · exact m.kinds i v h'
 
 /-- `append_fat_sector`'s two appends: a FATSECT cell with its DIFAT entry … -/
-theorem mk_pushFat {p : P} (m : MK p) :
-    MK { p with fat := p.fat.push FATSECT, difat := p.difat ++ [p.fat.size] } := by
+theorem mkc_pushFat {p : P} (m : MKc p) :
+    MKc { p with fat := p.fat.push FATSECT, difat := p.difat ++ [p.fat.size] } := by
   have hno2 : p.fat.size ∉ p.difatSectorIds := fun h => by
     have := (m.difMark _).mpr h; have := lt_of_get this; omega
   refine ⟨?_, ?_, ?_, ?_, m.difNd⟩
@@ -150,8 +165,8 @@ theorem mk_pushFat {p : P} (m : MK p) :
     exact List.nodup_append.mpr ⟨m.fatNd, by simp, fun a ha b hb => by simp at hb; subst hb; exact fun e => hno1 (e ▸ ha)⟩
 
 /-- … and a DIFSECT cell with the new DIFAT sector's id -/
-theorem mk_pushDifat {p : P} (m : MK p) :
-    MK { p with fat := p.fat.push DIFSECT, difatSectorIds := p.difatSectorIds ++ [p.fat.size] } := by
+theorem mkc_pushDifat {p : P} (m : MKc p) :
+    MKc { p with fat := p.fat.push DIFSECT, difatSectorIds := p.difatSectorIds ++ [p.fat.size] } := by
   have hno1 : p.fat.size ∉ p.difat := fun h => by
     have := (m.fatMark _).mpr h; have := lt_of_get this; omega
   refine ⟨?_, ?_, ?_, m.fatNd, ?_⟩
@@ -187,6 +202,22 @@ theorem mk_pushDifat {p : P} (m : MK p) :
       have := (m.difMark _).mpr h; have := lt_of_get this; omega
     exact List.nodup_append.mpr ⟨m.difNd, by simp, fun a ha b hb => by simp at hb; subst hb; exact fun e => hno2 (e ▸ ha)⟩
 
+
+/-! the same for `MK` (the DIFAT's capacity only depends on fields these updates leave alone) -/
+
+theorem capD_of_same {p q : P} (h : SameMarks p q) (c : CapD p) : CapD q := by
+  obtain ⟨_, h2, h3, h4⟩ := h
+  unfold CapD P.S at *
+  rw [h2, h3, h4]; exact c
+
+theorem mk_of_same {p q : P} (h : SameMarks p q) (m : MK p) : MK q := ⟨mkc_of_same h m.core, capD_of_same h m.capD⟩
+
+theorem mk_set {p : P} {idx old val : Nat} (m : MK p) (hold : p.fat[idx]? = some old) (ho : Plain old) (hv : Plain val) :
+    MK { p with fat := p.fat.setIfInBounds idx val } := ⟨mkc_set m.core hold ho hv, m.capD⟩
+
+theorem mk_push {p : P} {val : Nat} (m : MK p) (hv : Plain val) : MK { p with fat := p.fat.push val } :=
+  ⟨mkc_push m.core hv, m.capD⟩
+
 end CfbVerif.Phys
 
 /-! ## the sector level -/
@@ -208,52 +239,95 @@ theorem GK.trans {p q r : P} (h1 : GK p q) (h2 : GK q r) : GK p r := by
 theorem GK.of_same2 {p q : P} (h : SameAlloc p q) (k : SameMarks p q) : GK p q :=
   ⟨Good.of_same h, fun _ _ m => mk_of_same k m⟩
 
-theorem sk_refl (p : P) : SameMarks p p := ⟨rfl, rfl, rfl⟩
+theorem sk_refl (p : P) : SameMarks p p := ⟨rfl, rfl, rfl, rfl⟩
 theorem SameMarks.trans {p q r : P} (h1 : SameMarks p q) (h2 : SameMarks q r) : SameMarks p r :=
-  ⟨h2.1.trans h1.1, h2.2.1.trans h1.2.1, h2.2.2.trans h1.2.2⟩
+  ⟨h2.1.trans h1.1, h2.2.1.trans h1.2.1, h2.2.2.1.trans h1.2.2.1, h2.2.2.2.trans h1.2.2.2⟩
 
 theorem sk_initSector {p p' : P} {id : Nat} {k : Init} (h : initSector p id k = .ok p') : SameMarks p p' := by
-  rcases initSector_ok h with ⟨_, he⟩ | ⟨_, he⟩ <;> subst he <;> exact ⟨rfl, rfl, rfl⟩
+  rcases initSector_ok h with ⟨_, he⟩ | ⟨_, he⟩ <;> subst he <;> exact ⟨rfl, rfl, rfl, rfl⟩
 
 theorem sk_writeSector {p p' : P} {id off : Nat} {bs : Bytes} (h : writeSector p id off bs = .ok p') : SameMarks p p' := by
   unfold writeSector at h
   split at h
   · cases h
-  · cases h; exact ⟨rfl, rfl, rfl⟩
+  · cases h; exact ⟨rfl, rfl, rfl, rfl⟩
 
 theorem mk_appendFatSector {p p' : P} (m : MK p) (h : appendFatSector p = .ok p') : MK p' := by
   unfold appendFatSector at h
   obtain ⟨p1, h1, h⟩ := bind_ok h
   obtain ⟨p2, h2, h⟩ := bind_ok h
   have s1 := sk_initSector h1
-  have m1 : MK p1 := mk_of_same s1 m
+  have m1 : MKc p1 := mkc_of_same s1 m.core
   have hp2 : p2 = { p1 with difat := p1.difat ++ [p.fat.size], fat := p1.fat.push FATSECT } := by
     rcases setFat_ok h2 with ⟨_, he⟩ | ⟨hl, _⟩
     · exact he
     · simp [s1.1] at hl
-  have m2 : MK p2 := by
+  have m2 : MKc p2 := by
     rw [hp2]
-    have := mk_pushFat m1
+    have := mkc_pushFat m1
     rw [s1.1] at this ⊢
-    exact mk_of_same ⟨by simp [s1.1], by simp [s1.1], rfl⟩ this
+    exact mkc_of_same ⟨by simp [s1.1], by simp [s1.1], rfl, rfl⟩ this
+  -- lengths, for the capacity of the DIFAT
+  have hS1 : p1.S = p.S := by unfold P.S; rw [s1.2.2.2]
+  have hd2 : p2.difat.length = p.difat.length + 1 := by rw [hp2]; simp [s1.2.1]
+  have hi2 : p2.difatSectorIds = p.difatSectorIds := by rw [hp2]; exact s1.2.2.1
+  have hS2 : p2.S = p.S := by rw [hp2]; exact hS1
+  have hN : Gen.NUM_DIFAT_ENTRIES_IN_HEADER = 109 := rfl
+  have hc := m.capD
+  unfold CapD at hc
+  have hper : 0 < (p.S - 4) / 4 := by
+    have : p.S = 512 ∨ p.S = 4096 := by
+      unfold P.S sectorLenOf
+      cases p.v4 <;> simp <;> decide
+    rcases this with h' | h' <;> rw [h'] <;> decide
   split at h
-  · cases h; exact m2
-  · dsimp only at h
+  · rename_i hlt
+    cases h
+    refine ⟨m2, ?_⟩
+    unfold CapD
+    rw [hd2, hi2, hS2]
+    have : p1.difat.length < Gen.NUM_DIFAT_ENTRIES_IN_HEADER := hlt
+    rw [s1.2.1] at this
+    omega
+  · rename_i hge
+    dsimp only at h
     split at h
-    · obtain ⟨p3, h3, h⟩ := bind_ok h
+    · rename_i hdsi
+      obtain ⟨p3, h3, h⟩ := bind_ok h
       obtain ⟨p4, h4, h⟩ := bind_ok h
       cases h
       have s3 := sk_initSector h3
-      have m3 : MK p3 := mk_of_same s3 m2
+      have m3 : MKc p3 := mkc_of_same s3 m2
       have hp4 : p4 = { p3 with fat := p3.fat.push DIFSECT } := by
         rcases setFat_ok h4 with ⟨_, he⟩ | ⟨hl, _⟩
         · exact he
         · simp [s3.1] at hl
       rw [hp4]
-      have := mk_pushDifat m3
-      rw [s3.1] at this ⊢
-      exact mk_of_same ⟨by simp [s3.1], rfl, by simp [s3.1]⟩ this
-    · cases h; exact m2
+      refine ⟨?_, ?_⟩
+      · have := mkc_pushDifat m3
+        rw [s3.1] at this ⊢
+        exact mkc_of_same ⟨by simp [s3.1], rfl, by simp [s3.1], rfl⟩ this
+      · unfold CapD
+        show p3.difat.length ≤ Gen.NUM_DIFAT_ENTRIES_IN_HEADER + (p3.difatSectorIds ++ [p2.fat.size]).length * ((p3.S - 4) / 4)
+        have hS3 : p3.S = p.S := by unfold P.S; rw [s3.2.2.2]; exact (by unfold P.S at hS2; exact hS2)
+        rw [s3.2.1, s3.2.2.1, hd2, hi2, hS3]
+        simp only [List.length_append, List.length_cons, List.length_nil]
+        rw [Nat.add_mul]
+        omega
+    · rename_i hdsi
+      cases h
+      refine ⟨m2, ?_⟩
+      unfold CapD
+      rw [hd2, hi2, hS2]
+      -- the DIFAT sector that holds entry `difatIndex` exists already
+      have hlt : (p1.difat.length - Gen.NUM_DIFAT_ENTRIES_IN_HEADER) / ((p.S - 4) / 4) < p.difatSectorIds.length := by
+        have := Nat.lt_of_not_ge hdsi
+        rw [hi2, hS2] at this
+        exact this
+      rw [s1.2.1] at hlt
+      have := (Nat.div_lt_iff_lt_mul hper).mp hlt
+      have hge' : ¬ p.difat.length < Gen.NUM_DIFAT_ENTRIES_IN_HEADER := by rw [← s1.2.1]; exact hge
+      omega
 
 theorem gk_allocateSector {p p' : P} {id : Nat} {k : Init} (h : allocateSector p k = .ok (p', id)) : GK p p' := by
   refine ⟨good_allocateSector h, ?_⟩
@@ -296,7 +370,7 @@ theorem gk_allocateSector {p p' : P} {id : Nat} {k : Init} (h : allocateSector p
         · simpa using he
       have m1 : MK p1 := by
         rw [hp1]
-        exact mk_of_same (p := { p with fat := p.fat.setIfInBounds id END }) ⟨rfl, rfl, rfl⟩ (mk_set m r.2.1 (Or.inl rfl) (Or.inr (Or.inl rfl)))
+        exact mk_of_same (p := { p with fat := p.fat.setIfInBounds id END }) ⟨rfl, rfl, rfl, rfl⟩ (mk_set m r.2.1 (Or.inl rfl) (Or.inr (Or.inl rfl)))
       exact mk_of_same (sk_initSector h2) m1
 
 theorem gk_extendChain {p p' : P} {start id : Nat} {k : Init} (h : extendChain p start k = .ok (p', id)) : GK p p' := by
@@ -359,7 +433,7 @@ theorem mk_freeChain (fuel : Nat) : ∀ {p p' : P} {cur : Nat}, freeChain p fuel
               · exact he
             subst hp1
             refine ih h ?_
-            exact mk_of_same (p := { p with fat := p.fat.setIfInBounds cur FREE }) ⟨rfl, rfl, rfl⟩ (mk_set m ns.2.1 (plain_of_next hn) (Or.inl rfl))
+            exact mk_of_same (p := { p with fat := p.fat.setIfInBounds cur FREE }) ⟨rfl, rfl, rfl, rfl⟩ (mk_set m ns.2.1 (plain_of_next hn) (Or.inl rfl))
 
 theorem gk_freeChainFrom {p p' : P} {start : Nat} (h : freeChainFrom p start = .ok p') : GK p p' :=
   ⟨good_freeChainFrom h, fun _ _ m => mk_freeChain _ h m⟩
@@ -392,11 +466,11 @@ open CfbVerif.Raw CfbVerif.Dir
 
 theorem sk_setMiniFat {p p' : P} {i v : Nat} (h : setMiniFat p i v = .ok p') : SameMarks p p' := by
   have := (setMiniFat_ok h).1
-  rw [this]; exact ⟨rfl, rfl, rfl⟩
+  rw [this]; exact ⟨rfl, rfl, rfl, rfl⟩
 
 theorem sk_popFreeMini {p p1 : P} {fuel : Nat} {r : Option Nat} (h : popFreeMini p fuel = .ok (p1, r)) : SameMarks p p1 := by
   have := (popFreeMini_ok fuel h).1
-  rw [this]; exact ⟨rfl, rfl, rfl⟩
+  rw [this]; exact ⟨rfl, rfl, rfl, rfl⟩
 
 theorem sk_freeMiniSector {p p' : P} {id : Nat} (h : freeMiniSector p id = .ok p') : SameMarks p p' := by
   unfold freeMiniSector at h
@@ -438,8 +512,8 @@ theorem sk_miniWriteAt {p p' : P} {m off : Nat} {bs : Bytes} (h : miniWriteAt p 
   obtain ⟨⟨sid, base⟩, hl, h⟩ := bind_ok h
   exact sk_writeSector h
 
-theorem sk_setStart (p : P) (slot start : Nat) : SameMarks p (setStart p slot start) := ⟨rfl, rfl, rfl⟩
-theorem sk_dropStart (p : P) (slot : Nat) : SameMarks p (dropStart p slot) := ⟨rfl, rfl, rfl⟩
+theorem sk_setStart (p : P) (slot start : Nat) : SameMarks p (setStart p slot start) := ⟨rfl, rfl, rfl, rfl⟩
+theorem sk_dropStart (p : P) (slot : Nat) : SameMarks p (dropStart p slot) := ⟨rfl, rfl, rfl, rfl⟩
 
 theorem gk_reopen {p p' : P} (h : Phys.reopen p = .ok p') : GK p p' := by
   refine ⟨good_reopen h, ?_⟩
@@ -447,7 +521,7 @@ theorem gk_reopen {p p' : P} (h : Phys.reopen p = .ok p') : GK p p' := by
   unfold Phys.reopen at h
   obtain ⟨chain, hc, h⟩ := bind_ok h
   cases h
-  exact mk_of_same (p := p) ⟨rfl, rfl, rfl⟩ m
+  exact mk_of_same (p := p) ⟨rfl, rfl, rfl, rfl⟩ m
 
 theorem gk_growOne {kind : Init} {p p' : P} {ids ids' : List Nat} (h : growOne kind p ids = .ok (p', ids')) : GK p p' := by
   unfold growOne at h
@@ -532,7 +606,7 @@ theorem gk_ensureRootRoom {p p' : P} (h : ensureRootRoom p = .ok p') : GK p p' :
   split at h
   · split at h
     · rename_i ha; cases h
-      exact (gk_allocateSector ha).trans (GK.of_same2 ⟨rfl, rfl, rfl, rfl⟩ ⟨rfl, rfl, rfl⟩)
+      exact (gk_allocateSector ha).trans (GK.of_same2 ⟨rfl, rfl, rfl, rfl⟩ ⟨rfl, rfl, rfl, rfl⟩)
     · cases h
     · cases h
     · cases h
@@ -554,7 +628,7 @@ theorem gk_appendMiniSector {p p' : P} (h : appendMiniSector p = .ok p') : GK p 
   unfold appendMiniSector at h
   split at h
   · rename_i hr; cases h
-    exact (gk_ensureRootRoom hr).trans (GK.of_same2 ⟨rfl, rfl, rfl, rfl⟩ ⟨rfl, rfl, rfl⟩)
+    exact (gk_ensureRootRoom hr).trans (GK.of_same2 ⟨rfl, rfl, rfl, rfl⟩ ⟨rfl, rfl, rfl, rfl⟩)
   · cases h
   · cases h
   · cases h
@@ -565,7 +639,7 @@ theorem gk_ensureMiniFatRoom {p p' : P} (h : ensureMiniFatRoom p = .ok p') : GK 
   split at h
   · split at h
     · rename_i ha; cases h
-      exact (gk_allocateSector ha).trans (GK.of_same2 ⟨rfl, rfl, rfl, rfl⟩ ⟨rfl, rfl, rfl⟩)
+      exact (gk_allocateSector ha).trans (GK.of_same2 ⟨rfl, rfl, rfl, rfl⟩ ⟨rfl, rfl, rfl, rfl⟩)
     · cases h
     · cases h
     · cases h
@@ -802,11 +876,11 @@ theorem gk_ensureDirSlot {p p' : P} {slot : Nat} (h : ensureDirSlot p slot = .ok
   · split at h
     · split at h
       · rename_i he; cases h
-        exact (gk_extendChain he).trans (GK.of_same2 ⟨rfl, rfl, rfl, rfl⟩ ⟨rfl, rfl, rfl⟩)
+        exact (gk_extendChain he).trans (GK.of_same2 ⟨rfl, rfl, rfl, rfl⟩ ⟨rfl, rfl, rfl, rfl⟩)
       · cases h
       · cases h
       · cases h
-    · cases h; exact GK.of_same2 ⟨rfl, rfl, rfl, rfl⟩ ⟨rfl, rfl, rfl⟩
+    · cases h; exact GK.of_same2 ⟨rfl, rfl, rfl, rfl⟩ ⟨rfl, rfl, rfl, rfl⟩
 
 
 
@@ -963,7 +1037,7 @@ theorem mk_create (v4 : Bool) : MK (Phys.create v4) := by
     · left; exact ⟨rfl, by simpa using h.symm⟩
     · right; exact ⟨rfl, by simpa using h.symm⟩
     · simp at h
-  refine ⟨?_, ?_, ?_, by show ([0] : List Nat).Nodup; simp, by show ([] : List Nat).Nodup; simp⟩
+  refine ⟨⟨?_, ?_, ?_, by show ([0] : List Nat).Nodup; simp, by show ([] : List Nat).Nodup; simp⟩, ?_⟩
   · intro i
     rw [hfat]
     show _ ↔ i ∈ [0]
@@ -987,6 +1061,12 @@ theorem mk_create (v4 : Bool) : MK (Phys.create v4) := by
     rcases cell i v h with ⟨_, hv⟩ | ⟨_, hv⟩
     · exact Or.inr (Or.inr (Or.inr (Or.inl hv)))
     · exact Or.inr (Or.inl hv)
+  · unfold CapD
+    show ([0] : List Nat).length ≤ _
+    have : Gen.NUM_DIFAT_ENTRIES_IN_HEADER = 109 := rfl
+    rw [this]
+    simp
+    omega
 
 /-- **FAT and DIFAT sectors are marked as such, and nothing else is, after every history of API
 calls** on a fresh file (within the format's range of sector numbers): a FAT cell says FATSECT
